@@ -164,7 +164,8 @@ def _opts(draw: Any, plain: bool = False) -> mmgen.Opts:
 @st.composite
 def cases(draw: Any) -> Dict[str, Any]:
     kind = draw(st.sampled_from(["accepted"] * 4 + ["rejected"] * 3 + ["planted"] * 3 + ["impl-missing"] * 2 + ["snippet-errors"]))
-    spec = draw(mmgen.specs(_opts(draw, plain=(kind == "planted"))))
+    o = _opts(draw, plain=(kind == "planted"))
+    spec = draw(mmgen.specs(o))
     n_props = sum(len(c.props) for c in spec.classes)
     if kind == "planted":
         hypothesis.assume(len(spec.classes) >= 3 and n_props >= 4)
@@ -210,6 +211,7 @@ def cases(draw: Any) -> Dict[str, Any]:
     return {
         "kind": kind, "text": text, "extra": extra, "orders": orders, "muts": muts,
         "n_entities": [len(spec.classes), len(spec.consts), len(spec.fns)],
+        "schema_form": kind == "accepted" and o.invariants == "schema",
     }
 
 
@@ -722,6 +724,12 @@ def shard(ctx: runner.Ctx) -> None:
     for i, c in enumerate(drawn):
         k = (i + ctx.shard) * (2 if ctx.quick else 8)
         targets = [sut.TARGETS[(k + d) % 8] for d in range(2 if ctx.quick else 8)]
+        if ctx.quick and c.get("schema_form"):
+            # invariants in the forms the schema inference recognises matter to the schema targets: one of the
+            # two targets of such a model is a schema target
+            targets[0] = ("jsonschema", "xsd")[i % 2]
+            if targets[1] == targets[0]:
+                targets[1] = sut.TARGETS[(k + 2) % 8]
         for t in targets:
             units.append({"case": c, "target": t, "fixture": None})
     if ctx.shard == 0:
